@@ -328,9 +328,9 @@ func (s *c08Sys) Canon() string {
 
 func TestVerifC08(t *testing.T) {
 	env := mc.GetEnv()
-	depth := 8
+	depth := 9
 	if env.Thorough() {
-		depth = 11
+		depth = 13
 	}
 	var jobs []mc.Job
 	for _, pol := range c08Policies() {
